@@ -9,6 +9,9 @@ import SpsdkVerif.Proofs.Registers
 import SpsdkVerif.Proofs.RegistersCfg
 import SpsdkVerif.Proofs.RegistersGen
 import SpsdkVerif.Generated.RegArith
+import SpsdkVerif.Generated.RegProc
+import SpsdkVerif.Model.RegistersP3
+import SpsdkVerif.Proofs.RegistersP3
 
 namespace SpsdkVerif.C11
 open SpsdkVerif SpsdkVerif.Regs SpsdkVerif.Misc SpsdkVerif.Generated
@@ -811,5 +814,294 @@ example : RegArith.bfSet 16 true 0 0 4 RegArith.nopPre = .error .spsdk := by dec
 example : RegArith.bfSet (-1) true 0 0 4 RegArith.nopPre = .error .spsdk := by decide
 example : RegArith.subValue 0x1111111122222222 64 32 0 true = 0x11111111 := by decide
 example : RegArith.getAltWidth 384 33 [256] = 384 ∧ RegArith.getAltWidth 384 32 [256] = 256 ∧ RegArith.getAltWidth 384 1 [] = 384 := by decide
+
+/-! # Phase 3: every config processor of the source, `get_config(diff)`, look-up, export with gaps
+
+`Generated/RegProc.lean` lists EVERY class of registers.py that derives from `ConfigProcessor` (AST, by value), with its
+`pre_process / post_process / width_update` translated; a new subclass, a changed formula or NAME regenerates the table and the
+theorems below have to be re-proved for it. -/
+
+theorem getD_cast (ps : List Nat) : (ps.map (fun (x : Nat) => (x : Int))).getD 0 0 = ((ps.getD 0 0 : Nat) : Int) := by
+  cases ps <;> simp
+
+/-- **Every processor that exists is one the model represents** by `Field.shift` (`shift = 0` for the base class): its
+    pre-processing is `>>> shift`, its post-processing `<<< shift`, its width update `+ shift`, for all parameter values. -/
+theorem processors_covered (p : RegProc.Proc) (hp : p ∈ RegProc.procs) :
+    ∃ sh : List Nat → Nat, ∀ (ps : List Nat) (v : Nat),
+      p.pre (ps.map (fun (x : Nat) => (x : Int))) v = ((v >>> sh ps : Nat) : Int) ∧
+      p.post (ps.map (fun (x : Nat) => (x : Int))) v = ((v <<< sh ps : Nat) : Int) ∧
+      p.width (ps.map (fun (x : Nat) => (x : Int))) v = ((v + sh ps : Nat) : Int) := by
+  simp only [RegProc.procs, List.mem_cons, List.not_mem_nil, or_false] at hp
+  rcases hp with rfl | rfl
+  · exact ⟨fun _ => 0, fun ps v => by simp⟩
+  · refine ⟨fun ps => ps.getD 0 0, fun ps v => ?_⟩
+    simp only [getD_cast, shrI_cast, shlI_cast, Int.toNat_natCast]
+    refine ⟨trivial, trivial, ?_⟩
+    push_cast; rfl
+
+/-- **`pre(post(v)) = v`** for every processor and all parameters (what `get_config` writes loads back to the stored bits), and
+    **`post(pre(v)) = v` on the accepted domain** (the values `post` produces — for SHIFT_RIGHT the multiples of `2^count`) -/
+theorem processors_roundtrip (p : RegProc.Proc) (hp : p ∈ RegProc.procs) (ps : List Nat) (v : Nat) :
+    p.pre (ps.map (fun (x : Nat) => (x : Int))) (p.post (ps.map (fun (x : Nat) => (x : Int))) v) = v ∧
+    ((∃ s : Nat, (v : Int) = p.post (ps.map (fun (x : Nat) => (x : Int))) s) →
+      p.post (ps.map (fun (x : Nat) => (x : Int))) (p.pre (ps.map (fun (x : Nat) => (x : Int))) v) = v) := by
+  obtain ⟨sh, h⟩ := processors_covered p hp
+  have e1 : ∀ s : Nat, p.pre (ps.map (fun (x : Nat) => (x : Int))) (p.post (ps.map (fun (x : Nat) => (x : Int))) s) = s := by
+    intro s
+    rw [(h ps s).2.1, (h ps (s <<< sh ps)).1, Nat.shiftLeft_shiftRight]
+  refine ⟨e1 v, ?_⟩
+  rintro ⟨s, hs⟩
+  rw [hs, e1 s]
+
+/-- the dispatch list of `from_spec` is exactly the subclasses of the table, NAMEs are unique, and the configuration-string
+    syntax constants are the ones `procFromSpec` (Model/RegistersP3.lean) is written with -/
+theorem processors_dispatch :
+    RegProc.dispatch = (RegProc.procs.filter (fun p => p.cls != "ConfigProcessor")).map (·.name) ∧
+    (RegProc.procs.map (·.name)).Nodup ∧
+    (∀ p ∈ RegProc.procs, p.keys = p.params) ∧
+    RegProc.syntaxConsts = [("get_method_name", ["split::"]), ("get_params", ["split:=", "split::", "split:;", "split:,"]),
+      ("get_description", ["partition:;", "replace:", "replace:DESC="])] := by
+  refine ⟨by decide, by decide, ?_, by decide⟩
+  intro p hp
+  simp only [RegProc.procs, List.mem_cons, List.not_mem_nil, or_false] at hp
+  rcases hp with rfl | rfl <;> rfl
+
+/-- on the accepted domain the value a processed bit-field stores is the value itself -/
+theorem stored_of_accepted (f : Field) (v : Nat) (h : v % 2 ^ f.shift = 0) : stored f v = v :=
+  shl_shr_of_mod v f.shift h
+
+/-- **set via the configuration, read the value back** — bit-fields with a processor included: a number of the accepted domain
+    loaded through `load_yml_config` reads back as exactly that number, and what `get_config` then writes decodes to it -/
+theorem config_value_roundtrip_processed (r : Reg) (f : Field) (fm : FieldMeta) (v : Nat) (h : RegWF r)
+    (hin : f.offset + f.width ≤ r.width) (hv : v >>> f.shift < 2 ^ f.width) (hd : v % 2 ^ f.shift = 0) :
+    ∃ r', loadField r f fm (.num v) = .ok r' ∧ fieldGet r' f = .ok v ∧ RegWF r' ∧
+      ∃ c, enumValueOf r' f fm = .ok c ∧ cfgDecode f fm c = some v := by
+  obtain ⟨r', h1, h2⟩ := field_get_set r f v true h hin hv
+  rw [stored_of_accepted f v hd] at h2
+  exact ⟨r', h1, h2, fieldSet_wf r f v true h hin r' h1, enum_value_decodes r' f fm v h2⟩
+
+/-- **independence with processors**: after any history, a write of an accepted value `v` to a processed bit-field and any later
+    operations that do not write its bits, the bit-field reads exactly `v` (neighbours with or without processors included) -/
+theorem history_last_write_processed (rf : RegFile) (pre post : List Op) (i j v : Nat) (raw : Bool)
+    (r : Reg) (f : Field) (h : FileWF rf) (hr : rf[i]? = some r) (hf : r.fields[j]? = some f)
+    (hv : v >>> f.shift < 2 ^ f.width) (hd : v % 2 ^ f.shift = 0) (hpost : ∀ op ∈ post, Untouched rf i j op) :
+    ∃ r', (run rf (pre ++ [Op.setField i j v raw] ++ post))[i]? = some r' ∧ fieldGet r' f = .ok v := by
+  have := history_last_write rf pre post i j v raw r f h hr hf hv hpost
+  rwa [stored_of_accepted f v hd] at this
+
+example : (0x120 : Nat) >>> 4 < 2 ^ 8 ∧ (0x120 : Nat) % 2 ^ 4 = 0 := by decide
+
+example : ∃ p ∈ RegProc.procs, p.name = "SHIFT_RIGHT" ∧ p.pre [4] 0x123 = 0x12 ∧ p.post [4] 0x12 = 0x120 ∧ p.width [4] 8 = 12 :=
+  ⟨_, List.mem_cons_of_mem _ (List.mem_cons_self ..), by decide⟩
+
+/-! ## `get_config(diff=True)` -/
+
+/-- `diff=False` is the configuration all older theorems speak about -/
+theorem getConfig_diff_false (m : Meta) (rf : RegFile) : getConfigD false m rf = getConfig m rf :=
+  getConfigDFrom_false m rf 0
+
+/-- the bits a diff configuration carries: those of the bit-fields that do not read their reset value -/
+def CarriedD (r : Reg) (k : Nat) : Prop :=
+  ∃ (j : Nat) (f : Field), r.fields[j]? = some f ∧ f.offset ≤ k ∧ k < f.offset + f.width ∧ fieldGet r f ≠ .ok f.reset
+
+theorem carriedD_iff (rm : RegMeta) (r : Reg) (k : Nat) : Carried (hideAll rm r.fields.length) r k ↔ CarriedD r k := by
+  rw [carried_iff]
+  constructor
+  · rintro ⟨j, f, h1, h2, h3, h4⟩
+    have hj : j < r.fields.length := by
+      rcases Nat.lt_or_ge j r.fields.length with h | h
+      · exact h
+      · rw [List.getElem?_eq_none h] at h1; cases h1
+    exact ⟨j, f, h1, h2, h3, fun hh => h4 ⟨hideAll_hidden rm _ j hj, hh⟩⟩
+  · rintro ⟨j, f, h1, h2, h3, h4⟩
+    exact ⟨j, f, h1, h2, h3, fun hh => h4 hh.2⟩
+
+/-- **A diff configuration names exactly what differs from reset**: a register has an entry iff its raw value is not its
+    reset value, and the bit-field dictionary of such a register names exactly the bit-fields that do not read their reset value. -/
+theorem config_diff_exact (m : Meta) (rf : RegFile) (cfg : Cfg) (h : getConfigD true m rf = .ok cfg) :
+    (∀ ref, (∃ c, (ref, c) ∈ cfg) ↔ ∃ i r, ref = .top i ∧ rf[i]? = some r ∧ regAtReset r (m.reg i) = false) ∧
+    (∀ ref l, (ref, RegCfg.fields l) ∈ cfg → ∃ i r, ref = .top i ∧ rf[i]? = some r ∧ r.fields ≠ [] ∧
+      ∀ j, (∃ c, (j, c) ∈ l) ↔ ∃ f, r.fields[j]? = some f ∧ fieldGet r f ≠ .ok f.reset) := by
+  refine ⟨fun ref => ?_, fun ref l hm => ?_⟩
+  · have := getConfigDFrom_keys m rf 0 cfg h ref
+    simpa using this
+  · obtain ⟨t, r, h1, h2, h3⟩ := getConfigDFrom_entry m rf 0 cfg h ref _ hm
+    simp only [Nat.zero_add] at h1 h3
+    refine ⟨t, r, h1, h2, ?_⟩
+    unfold regConfigD at h3
+    cases he : r.fields.isEmpty with
+    | true =>
+      rw [he] at h3
+      simp only [if_true] at h3
+      cases hg : r.getAlt (m.reg t).alts false <;> rw [hg] at h3 <;> cases h3
+    | false =>
+      rw [he] at h3
+      simp only [Bool.false_eq_true, if_false] at h3
+      cases hf : fieldsConfigD true r (m.reg t) r.fields 0 with
+      | error e => rw [hf] at h3; cases h3
+      | ok l' =>
+        rw [hf] at h3
+        cases h3
+        refine ⟨(by intro hn; rw [hn] at he; cases he), fun j => ?_⟩
+        rw [fieldsConfigD_keys r (m.reg t) r.fields 0 l hf j]
+        constructor
+        · rintro ⟨t', f, h4, h5, h6⟩
+          exact ⟨f, by rw [h4, Nat.zero_add]; exact h5, h6⟩
+        · rintro ⟨f, h5, h6⟩
+          exact ⟨j, f, by omega, h5, h6⟩
+
+theorem regOK_hideAll (rm : RegMeta) (n : Nat) (r r0 : Reg) (h : RegOK rm r r0) : RegOK (hideAll rm n) r r0 := by
+  obtain ⟨hl, hw, hw0, halt⟩ := h
+  refine ⟨hl, ?_, ?_, halt⟩
+  · cases hw with
+    | plain a => exact .plain a
+    | group a b c => exact .group a b c
+  · cases hw0 with
+    | plain a => exact .plain a
+    | group a b c => exact .group a b c
+
+/-- **Loading a diff configuration.**  The diff configuration of `rf` loads into any register file `rf0` of the same layout;
+    a register of `rf` at its reset value is not named and keeps what it holds in `rf0`; every other register receives what the
+    configuration carries (`RegRT`, with "carried" = the bit-fields that differ from reset). -/
+theorem config_diff_roundtrip (m : Meta) (rf rf0 : RegFile) (hlen : rf0.length = rf.length)
+    (hok : ∀ i r r0, rf[i]? = some r → rf0[i]? = some r0 → RegOK (m.reg i) r r0) :
+    ∃ cfg rf', getConfigD true m rf = .ok cfg ∧ loadConfig m rf0 cfg = .ok rf' ∧ rf'.length = rf.length ∧
+      ∀ i r r0, rf[i]? = some r → rf0[i]? = some r0 → ∃ r', rf'[i]? = some r' ∧
+        ((regAtReset r (m.reg i) = true ∧ r' = r0) ∨
+         (regAtReset r (m.reg i) = false ∧ RegRT (hideAll (m.reg i) r.fields.length) r r0 r')) := by
+  have := roundtrip_lift_diff m RegOK (fun rm r r0 r' => RegRT (hideAll rm r.fields.length) r r0 r') (by
+    intro rm r r0 hp
+    obtain ⟨c, r', h1, h2, h3⟩ := regOK_roundtrip (hideAll rm r.fields.length) r r0 (regOK_hideAll rm _ r r0 hp)
+    exact ⟨c, r', by rw [regConfigD_true]; exact h1, by rw [← loadReg_hideAll rm r.fields.length]; exact h2, h3⟩)
+    rf rf0 [] hlen (by simpa using hok)
+  simpa [getConfigD] using this
+
+/-- **… reproduces the state** in every target that agrees with the source on what the configuration does not carry (a freshly
+    created object: bit-fields at reset are at reset there too): a named register reads like the source in both views and in
+    every bit-field; a register left out reads its reset value in both objects. -/
+theorem config_diff_same_state (rm : RegMeta) (r r0 r' : Reg) (hok : RegOK rm r r0) :
+    (regAtReset r rm = false → RegRT (hideAll rm r.fields.length) r r0 r' →
+      (∀ k, ¬ CarriedD r k → r0.value.testBit k = r.value.testBit k) →
+      (∀ raw, r'.getAlt rm.alts raw = r.getAlt rm.alts raw) ∧ ∀ f, fieldGet r' f = fieldGet r f) ∧
+    (regAtReset r rm = true → regAtReset r0 rm = true → r0.getAlt rm.alts true = r.getAlt rm.alts true) := by
+  refine ⟨fun _ hrt hrest => ?_, fun h h0 => ?_⟩
+  · exact config_roundtrip_same_state (hideAll rm r.fields.length) r r0 r' hrt (regOK_hideAll rm _ r r0 hok)
+      (fun k hk => hrest k (fun hc => hk ((carriedD_iff rm r k).2 hc)))
+  · have hr : r0.resetValue = r.resetValue := by
+      simp only [Reg.resetValue, hok.layout.fields, hok.layout.resetRaw]
+    unfold regAtReset at h h0
+    cases hg : r.getAlt rm.alts true with
+    | error e => rw [hg] at h; cases h
+    | ok v =>
+      cases hg0 : r0.getAlt rm.alts true with
+      | error e => rw [hg0] at h0; cases h0
+      | ok v0 =>
+        rw [hg] at h; rw [hg0] at h0
+        simp only [beq_iff_eq] at h h0
+        rw [h, h0, hr]
+
+/-- non-vacuity: bit-field 0 differs from its reset value 0, bit-fields 1 and 2 of `exCfgReg` are moved to their reset values;
+    the diff configuration names bit-field 0 only, and a register at reset is left out altogether -/
+example : getConfigD true exMeta [{ exCfgReg with value := 0x0004 }] = .ok [(.top 0, .fields [(0, .num 4)])] := by decide
+example : getConfigD true exMeta [{ exCfgReg with value := 0 }] = .ok [] := by decide
+example : loadConfig exMeta [{ exCfgReg with value := 0 }] [(.top 0, .fields [(0, .num 4)])] = .ok [{ exCfgReg with value := 0x0004 }] := by
+  decide
+
+/-! ## look-up by name, alias and uid -/
+
+/-- `find_reg` answers only with a register that carries the name (as name, alias or uid), members of groups only on request;
+    and it finds a top-level register whenever one carries the name -/
+theorem findReg_sound (names : List RegName) (x : Nat) (incl : Bool) (ref : RegRef) (h : findReg names x incl = some ref) :
+    (∀ i, ref = .top i → ∃ r, names[i]? = some r ∧ nameHit x r.name r.aliases r.uid = true) ∧
+    (∀ i k, ref = .sub i k → incl = true ∧
+      ∃ r n a u, names[i]? = some r ∧ r.subs[k]? = some (n, a, u) ∧ nameHit x n a u = true) := by
+  have key : ∀ (l : List RegName) (i0 : Nat), findRegFrom x incl l i0 = some ref →
+      (∀ i, ref = .top i → ∃ t r, i = i0 + t ∧ l[t]? = some r ∧ nameHit x r.name r.aliases r.uid = true) ∧
+      (∀ i k, ref = .sub i k → incl = true ∧
+        ∃ t r n a u, i = i0 + t ∧ l[t]? = some r ∧ r.subs[k]? = some (n, a, u) ∧ nameHit x n a u = true) := by
+    intro l
+    induction l with
+    | nil => intro i0 h; simp [findRegFrom] at h
+    | cons r rs ih =>
+      intro i0 h
+      have lift : findRegFrom x incl rs (i0 + 1) = some ref →
+          (∀ i, ref = .top i → ∃ t a, i = i0 + t ∧ (r :: rs)[t]? = some a ∧ nameHit x a.name a.aliases a.uid = true) ∧
+          (∀ i k, ref = .sub i k → incl = true ∧
+            ∃ t a n al u, i = i0 + t ∧ (r :: rs)[t]? = some a ∧ a.subs[k]? = some (n, al, u) ∧ nameHit x n al u = true) := by
+        intro h'
+        obtain ⟨p1, p2⟩ := ih (i0 + 1) h'
+        refine ⟨fun i hi => ?_, fun i k hi => ?_⟩
+        · obtain ⟨t, a, h1, h2, h3⟩ := p1 i hi
+          exact ⟨t + 1, a, by omega, by simpa using h2, h3⟩
+        · obtain ⟨hc, t, a, n, al, u, h1, h2, h3, h4⟩ := p2 i k hi
+          exact ⟨hc, t + 1, a, n, al, u, by omega, by simpa using h2, h3, h4⟩
+      simp only [findRegFrom] at h
+      by_cases hh : nameHit x r.name r.aliases r.uid = true
+      · rw [if_pos hh] at h
+        cases h
+        refine ⟨fun i hi => ?_, fun i k hi => by cases hi⟩
+        cases hi
+        exact ⟨0, r, rfl, by simp, hh⟩
+      · rw [if_neg hh] at h
+        cases hi : incl with
+        | false =>
+          rw [hi] at h
+          simp only [Bool.false_eq_true, if_false] at h
+          rw [hi] at lift
+          exact lift h
+        | true =>
+          rw [hi] at h
+          simp only [if_true] at h
+          cases hf : (List.range r.subs.length).find? (subHit x r.subs) with
+          | some k =>
+            rw [hf] at h
+            cases h
+            have hk := List.find?_some hf
+            unfold subHit at hk
+            refine ⟨fun i hi => (by cases hi), fun i k' hi => ?_⟩
+            cases hi
+            cases hs : r.subs[k]? with
+            | none => rw [hs] at hk; cases hk
+            | some e =>
+              obtain ⟨n, a, u⟩ := e
+              rw [hs] at hk
+              exact ⟨rfl, 0, r, n, a, u, rfl, by simp, hs, hk⟩
+          | none =>
+            rw [hf] at h
+            rw [hi] at lift
+            exact lift h
+  obtain ⟨p1, p2⟩ := key names 0 h
+  refine ⟨fun i hi => ?_, fun i k hi => ?_⟩
+  · obtain ⟨t, r, h1, h2, h3⟩ := p1 i hi
+    exact ⟨r, by rw [h1, Nat.zero_add]; exact h2, h3⟩
+  · obtain ⟨hc, t, r, n, a, u, h1, h2, h3, h4⟩ := p2 i k hi
+    exact ⟨hc, r, n, a, u, by rw [h1, Nat.zero_add]; exact h2, h3, h4⟩
+
+theorem findReg_complete (names : List RegName) (x : Nat) (incl : Bool) (i : Nat) (r : RegName)
+    (hr : names[i]? = some r) (hx : nameHit x r.name r.aliases r.uid = true) :
+    ∃ ref, findReg names x incl = some ref := by
+  have key : ∀ (l : List RegName) (i0 t : Nat), l[t]? = some r → ∃ ref, findRegFrom x incl l i0 = some ref := by
+    intro l
+    induction l with
+    | nil => intro i0 t h; simp at h
+    | cons a rs ih =>
+      intro i0 t h
+      simp only [findRegFrom]
+      by_cases hh : nameHit x a.name a.aliases a.uid = true
+      · rw [if_pos hh]; exact ⟨_, rfl⟩
+      · rw [if_neg hh]
+        cases t with
+        | zero => simp at h; subst h; exact absurd hx hh
+        | succ t =>
+          split
+          · exact ⟨_, rfl⟩
+          · exact ih (i0 + 1) t (by simpa using h)
+  exact key names 0 i hr
+
+example : findReg [{ name := 1, uid := 101 }, { name := 2, uid := 102, aliases := [7], subs := [(20, [], 120), (21, [], 121)] }] 21 true
+    = some (.sub 1 1) := by decide
+example : findReg [{ name := 1, uid := 101 }, { name := 2, uid := 102, aliases := [7], subs := [(20, [], 120), (21, [], 121)] }] 21 false
+    = none := by decide
+example : findReg [{ name := 1, uid := 101 }, { name := 2, uid := 102, aliases := [7] }] 7 false = some (.top 1) := by decide
 
 end SpsdkVerif.C11
